@@ -944,3 +944,31 @@ V("c03-fftfreq-block-loses-parameter", "C03", "R03.11", "dask_array/fft.py",
   "def _fftfreq_block(i, n, d):", "def _fftfreq_block(i, n):\n    d = 1.0", expect="fftfreq")
 V("c03-twin-matmul-kernel-defaulted-parameter", "C03", "-", "dask_array/linalg/_tensordot.py",
   "def _matmul(a, b):", "def _matmul(a, b, _xp=None):", twin=True)
+
+# -- R02.8: rewrites that rebuild an Elemwise transform where/out with the inputs -----------------------------------
+V("c02-elemwise-slice-leaves-where-out-unsliced", "C02", "R02.8", "dask_array/_blockwise.py",
+  "            new_where,\n            new_out,\n            self.operand(\"_user_kwargs\"),\n            *new_args,\n        )\n\n    def _accept_shuffle", "            self.where,\n            self.out,\n            self.operand(\"_user_kwargs\"),\n            *new_args[: len(self.elemwise_args)],\n        )\n\n    def _accept_shuffle", expect="Elemwise._accept_slice")
+V("c02-elemwise-shuffle-leaves-out-unshuffled", "C02", "R02.8", "dask_array/_blockwise.py",
+  "        new_out = self.out\n        input_axis = get_input_axis(new_out) if hasattr(new_out, \"ndim\") else None\n        if input_axis is not None:\n            new_out = Shuffle(new_out, indexer, input_axis, name)\n            any_shuffled = True\n", "        new_out = self.out\n", expect="Elemwise._accept_shuffle")
+V("c02-transpose-pushdown-leaves-where-untransposed", "C02", "R02.8", "dask_array/manipulation/_transpose.py",
+  "        new_where = elemwise.where\n        if hasattr(new_where, \"ndim\"):\n            new_where = Transpose(new_where, axes)\n", "        new_where = elemwise.where\n", expect="_pushdown_through_elemwise")
+V("c02-twin-elemwise-slice-declines-when-where-or-out-is-array", "C02", "-", "dask_array/_blockwise.py", None, None, twin=True, edits=[
+  ("dask_array/_blockwise.py", "        out_ind = self.out_ind\n        index = slice_expr.index\n\n        # Pad index to full length", "        if isinstance(self.where, ArrayExpr) or isinstance(self.out, ArrayExpr):\n            return None\n        out_ind = self.out_ind\n        index = slice_expr.index\n\n        # Pad index to full length"),
+  ("dask_array/_blockwise.py", "            new_where,\n            new_out,\n            self.operand(\"_user_kwargs\"),\n            *new_args,\n        )\n\n    def _accept_shuffle", "            self.where,\n            self.out,\n            self.operand(\"_user_kwargs\"),\n            *new_args,\n        )\n\n    def _accept_shuffle"),
+])
+
+# -- R02.9 / R02.10: multi-operand slice pushdowns look at each operand's own extent and grid -------------------------
+V("c02-blockwise-slice-ignores-broadcast-axis", "C02", "R02.9", "dask_array/_blockwise.py",
+  "                        if arg.shape[axis] == 1 and self.shape[out_pos] != 1 and idx != slice(None):\n", "                        if False:\n", expect="Blockwise._accept_slice")
+V("c02-coarse-slice-ignores-broadcast-axis", "C02", "R02.9", "dask_array/_blockwise.py",
+  "                            elif arg.shape[dim_idx] == 1:  # Broadcast: serves every block\n                                arg_slices.append(slice(None))\n", "", expect="_accept_slice_coarse")
+V("c02-elemwise-slice-ignores-broadcast-axis", "C02", "R02.9", "dask_array/_blockwise.py",
+  "                        if arg_shape[i] == 1:\n                            if isinstance(out_slice, slice):", "                        if False:\n                            if isinstance(out_slice, slice):", expect="Elemwise._accept_slice")
+V("c02-coarse-slice-maps-blocks-of-unaligned-operands", "C02", "R02.10", "dask_array/_blockwise.py",
+  "        if any(len(g) > 1 for g in grids.values()):\n            return None\n", "", expect="_accept_slice_coarse")
+V("c02-twin-coarse-slice-grids-in-defaultdict", "C02", "-", "dask_array/_blockwise.py", None, None, twin=True, edits=[
+  ("dask_array/_blockwise.py", "        grids = {}\n", "        from collections import defaultdict\n\n        grids = defaultdict(set)\n"),
+  ("dask_array/_blockwise.py", "                    grids.setdefault(in_ind, set()).add(arg.chunks[dim_idx])\n", "                    grids[in_ind].add(arg.chunks[dim_idx])\n"),
+])
+V("c02-twin-blockwise-slice-broadcast-test-via-alias", "C02", "-", "dask_array/_blockwise.py",
+  "                        if arg.shape[axis] == 1 and self.shape[out_pos] != 1 and idx != slice(None):\n", "                        arg_len = arg.shape[axis]\n                        if arg_len == 1 and self.shape[out_pos] != 1 and idx != slice(None):\n", twin=True)
